@@ -936,6 +936,74 @@ def drive_mpc(ck, rng, n):
                 ck.sample({"driver": "MPC.forward", **w})
 
 
+def drive_defaults(ck, rng):
+    """Driver objects built WITHOUT a stepper argument use the documented default controller - ReduceToBason(steps=10) for MPC (of
+    which MPC runs steps-1 controller steps: 'n-1 loops, 1 loop with gradient'), ReduceToBason(steps=200) for ICP - and every such
+    object has a controller of its own: building or customising other objects changes nothing.  The costs each object's controller is
+    given are replayed through the reference automaton with the documented constants; the loop must end exactly at its first stop."""
+    ns, nc, T = 3, 2, 4
+    mpcs = []
+    for j in range(5):
+        A = torch.eye(ns, dtype=torch.float64) + 0.2 * torch.as_tensor(rng.standard_normal((ns, ns)))
+        B = torch.as_tensor(rng.standard_normal((ns, nc)))
+        lti = pp.module.LTI(A, B, torch.eye(ns, dtype=torch.float64), torch.zeros(ns, nc, dtype=torch.float64),
+                            torch.zeros(ns, dtype=torch.float64), torch.zeros(ns, dtype=torch.float64))
+        Q = torch.eye(ns + nc, dtype=torch.float64).tile(1, T, 1, 1)
+        p = torch.as_tensor(rng.standard_normal((1, T, ns + nc))) * 0.05 + 2.0       # costs stay positive (negative counts as below tol)
+        x0 = torch.as_tensor(rng.standard_normal((1, ns)))
+        ok, m = ck.call("driver.defaults", "MPC", "module.MPC", lambda: pp.module.MPC(lti, Q, p, T))
+        if ok:
+            mpcs.append((m, x0))
+    icps = []
+    for j in range(3):
+        ok, m = ck.call("driver.defaults", "ICP", "module.ICP", lambda: pp.module.ICP())
+        if ok:
+            icps.append(m)
+    ids = [id(m.stepper) for m, _ in mpcs] + [id(m.stepper) for m in icps]
+    ck.check(len(set(ids)) == len(ids), "driver.defaults", "own-controller", "module.MPC/ICP", "default_built_objects_share_one_controller",
+             {"objects": len(ids), "distinct_controllers": len(set(ids))})
+    if icps:
+        icps[0].stepper.max_steps = 2         # a user customises ONE object (a coarse stage)
+    for which, objs, doc in (("MPC", mpcs[::-1], dict(steps=9, patience=5, decreasing=1e-3, tol=1e-5)),
+                             ("ICP", [(m, None) for m in icps[1:]], dict(steps=200, patience=5, decreasing=1e-3, tol=1e-5))):
+        for (m, x0) in objs:
+            costs = []
+            st = m.stepper
+            orig = st.step
+
+            def spy(loss, orig=orig, costs=costs):
+                costs.append(plain_loss(loss))
+                return orig(loss)
+            st.step = spy
+            try:
+                if which == "MPC":
+                    ok, _ = ck.call("driver.defaults", which, "module.MPC.forward", lambda: m(1, x0))
+                else:
+                    src = torch.as_tensor(rng.uniform(-1, 1, (40, 3)))
+                    ang = 0.3
+                    Rm = torch.tensor([[np.cos(ang), -np.sin(ang), 0.0], [np.sin(ang), np.cos(ang), 0.0], [0.0, 0.0, 1.0]], dtype=torch.float64)
+                    ok, _ = ck.call("driver.defaults", which, "module.ICP.forward", lambda: m(src, src @ Rm.T + 0.05))
+            finally:
+                st.step = orig
+            if not ok:
+                continue
+            ref = RefBason(**doc)
+            stop_at = None
+            for i_, c_ in enumerate(costs):
+                ref.step(c_)
+                if not ref.cont and stop_at is None:
+                    stop_at = i_ + 1
+            ck.count("driver.defaults", which, key=(which, id(m)))
+            w = {"driver": which, "documented_default": doc, "controller_steps": len(costs), "reference_first_stop_at": stop_at,
+                 "reference_cause": list(ref.cause), "costs": costs[:12]}
+            if ref.ambiguous:
+                ck.note_add("driver_defaults_ambiguous_skipped")
+                continue
+            ck.check(stop_at == len(costs), "driver.defaults", which, f"module.{which}.forward",
+                     "loop_of_a_default_built_object_does_not_follow_the_documented_default_controller", w)
+            ck.mark("driver.defaults/" + which)
+
+
 def drive_icp(ck, rng, n):
     monitor, entry = "driver.ICP", "module.ICP.forward"
     icp_mod = sys.modules["pypose.module.icp"]
@@ -1025,6 +1093,9 @@ def _run(ck):
     drive_optimize(ck, ck.rng("drive-opt"), nd)
     drive_mpc(ck, ck.rng("drive-mpc"), nd)
     drive_icp(ck, ck.rng("drive-icp"), nd)
+    if ck.shard == 0:
+        drive_defaults(ck, ck.rng("drive-defaults"))
+    ck.require("driver.defaults/MPC", "driver.defaults/ICP")
 
     # ---- 1+2: prefix trees (work items = controller x configuration, split over the shards)
     # ReduceToBason items cost several StopOnPlateau items: deal them from opposite ends of the shard list.
